@@ -342,7 +342,7 @@ private def demoFields : List Node :=
    .mk "b" true .raises .null,
    .mk "c" false .returns (.list [.obj [.mk "z" true .returns .leaf], .null])]
 private def demoReq (sched : List Nat) : Request :=
-  { docIsText := true, syntaxError := false, valid := true, opselOk := true, varsOk := true, serial := false,
+  { docIsText := true, syntaxError := false, valid := true, opselOk := true, varsOk := true, subscriptionOp := false, serial := false,
     blockingExecutor := false, fields := demoFields, sched := sched }
 example : execBody ⟨[0]⟩ (demoReq [2, 1, 0]) ≠ execBody ⟨[0]⟩ (demoReq [0, 0, 0]) := by decide
 example : (nodesOfFields [] demoFields).length = 6 := by decide
@@ -388,14 +388,14 @@ def stageShape (r : Request) : List (Stage × Bool) :=
   (if r.docIsText && r.syntaxError then [(.parsing, true), (.parsing, false)]
    else (if r.docIsText then [(.parsing, true), (.parsing, false)] else []) ++
         [(.validation, true), (.validation, false)] ++
-        (if r.valid && r.opselOk && r.varsOk then [(.execution, true), (.execution, false)] else [])) ++
+        (if r.valid && r.opselOk && r.varsOk && !r.subscriptionOp then [(.execution, true), (.execution, false)] else [])) ++
   [(.query, false)]
 
 theorem stage_events_eq (cfg : Cfg) (r : Request) : stageEvents (pipeline false cfg r) = stageShape r := by
   have hb := body_has_no_stage_event cfg r
-  obtain ⟨docIsText, syntaxError, valid, opselOk, varsOk, serial, blocking, fields, sched⟩ := r
+  obtain ⟨docIsText, syntaxError, valid, opselOk, varsOk, subOp, serial, blocking, fields, sched⟩ := r
   simp only [stageEvents] at hb
-  cases docIsText <;> cases syntaxError <;> cases valid <;> cases opselOk <;> cases varsOk <;>
+  cases docIsText <;> cases syntaxError <;> cases valid <;> cases opselOk <;> cases varsOk <;> cases subOp <;>
     simp [pipeline, execute, stageShape, stageEvents, stageStart, stageEnd, List.filterMap_append, hb, stageOf]
 
 /-- **stages_nested** — for every request, every outcome of every stage, every executor,
@@ -409,13 +409,13 @@ theorem stages_nested (cfg : Cfg) (r : Request) :
     ∧ (stageEvents (pipeline false cfg r)).head? = some (.query, true)
     ∧ (stageEvents (pipeline false cfg r)).getLast? = some (.query, false) := by
   rw [stage_events_eq]
-  obtain ⟨docIsText, syntaxError, valid, opselOk, varsOk, serial, blocking, fields, sched⟩ := r
-  cases docIsText <;> cases syntaxError <;> cases valid <;> cases opselOk <;> cases varsOk <;>
+  obtain ⟨docIsText, syntaxError, valid, opselOk, varsOk, subOp, serial, blocking, fields, sched⟩ := r
+  cases docIsText <;> cases syntaxError <;> cases valid <;> cases opselOk <;> cases varsOk <;> cases subOp <;>
     simp [stageShape, bracket]
 
 /-- the stage hooks of a stage that reported errors are still paired: syntax error, validation
     errors, operation / variable errors (execution never starts) -/
-example : stageShape { docIsText := true, syntaxError := true, valid := true, opselOk := true, varsOk := true,
+example : stageShape { docIsText := true, syntaxError := true, valid := true, opselOk := true, varsOk := true, subscriptionOp := false,
                        serial := false, blockingExecutor := true, fields := [], sched := [] }
     = [(.query, true), (.parsing, true), (.parsing, false), (.query, false)] := by decide
 
@@ -424,7 +424,7 @@ example : stageShape { docIsText := true, syntaxError := true, valid := true, op
     `query+ parsing+ query- parsing-`, which is not well bracketed. -/
 theorem stages_not_nested_before_fix_N1 :
     ∃ (cfg : Cfg) (r : Request), bracket [] (stageEvents (pipeline true cfg r)) = false :=
-  ⟨⟨[]⟩, { docIsText := true, syntaxError := true, valid := true, opselOk := true, varsOk := true,
+  ⟨⟨[]⟩, { docIsText := true, syntaxError := true, valid := true, opselOk := true, varsOk := true, subscriptionOp := false,
            serial := false, blockingExecutor := true, fields := [], sched := [] }, by decide⟩
 
 
@@ -508,9 +508,9 @@ theorem executor_eq_blocking_when_not_deferred (cfg : Cfg) (r : Request) (h : sy
     · exact execSerial_sync cfg _ _ h
     · simp [execParallel, sFields cfg [] r.fields h, drain_nil]
 
-/-- FULL ordering statement for ARBITRARY completion orders (not proved in this round, see
-    `field_hooks_ordered_partial`): the events of every resolved field occur in the required
-    order as a subsequence of the trace, whatever the schedule. -/
+/-- ordering statement for ARBITRARY completion orders (proved below: `field_hooks_ordered`):
+    the events of every resolved field occur in the required order as a subsequence of the
+    trace, whatever the schedule. -/
 def FieldOrderAllSchedules : Prop :=
   ∀ (cfg : Cfg) (r : Request) (n : Resolved), n ∈ nodesOfFields [] r.fields → (order cfg n).Sublist (execBody cfg r)
 
@@ -518,14 +518,12 @@ def FieldOrderAllSchedules : Prop :=
 example : ∀ a ∈ [0, 1, 2], ∀ b ∈ [0, 1, 2], ∀ c ∈ [0, 1, 2], ∀ n ∈ nodesOfFields [] demoFields,
     (order ⟨[0]⟩ n).Sublist (execBody ⟨[0]⟩ (demoReq [a, b, c])) := by decide
 
-/-- **field order, sequential configurations** (`_partial`: what is missing is the same order
-    for runtimes that defer resolvers, `FieldOrderAllSchedules`; there the COUNT half is proved
-    for every schedule by `field_hooks_once`, the ORDER half is tied by the correspondence, which
-    compares whole traces under all schedules of a fixed forest and random schedules). `BlockingExecutor`, and `Executor` whenever no
-    resolver is deferred: the block of every resolved field occurs CONTIGUOUSLY in the trace:
-    start hook, middlewares in (last one outermost), resolver invoked, returned / raised,
-    middlewares out, end hook — nothing of another field in between. -/
-theorem field_hooks_ordered_partial (cfg : Cfg) (r : Request)
+/-- **field order, sequential configurations** (stronger than `field_hooks_ordered` there):
+    `BlockingExecutor`, and `Executor` whenever no resolver is deferred: the block of every
+    resolved field occurs CONTIGUOUSLY in the trace: start hook, middlewares in (last one
+    outermost), resolver invoked, returned / raised, middlewares out, end hook — nothing of
+    another field in between. -/
+theorem field_hooks_contiguous_sequential (cfg : Cfg) (r : Request)
     (h : r.blockingExecutor = true ∨ syncNodes r.fields = true)
     (n : Resolved) (hn : n ∈ nodesOfFields [] r.fields) :
     chunk cfg n <:+: execBody cfg r := by
@@ -535,5 +533,390 @@ theorem field_hooks_ordered_partial (cfg : Cfg) (r : Request)
     · exact executor_eq_blocking_when_not_deferred cfg r h
   rw [this, field_hooks_once_blocking, List.flatMap_def]
   exact List.infix_of_mem_flatten (List.mem_map_of_mem hn)
+
+
+/-! ## order of the events of one field, every completion order -/
+
+def taskNode (t : Task) : Resolved := ⟨t.path, t.o⟩
+/-- the fields below an outstanding task (resolved once it completes) -/
+def taskDesc (t : Task) : List Resolved :=
+  match t.o with
+  | .returns => nodesOfComp t.path t.c
+  | _ => []
+
+/-- what the start phase of a field emits for it: start hook, middlewares entered -/
+def pre (cfg : Cfg) (n : Resolved) : List Ev :=
+  [Ev.hook (.field n.path true)] ++ cfg.mws.reverse.map (fun i => Ev.mwEnter i n.path)
+/-- what the completion of a field emits for it: invoked, returned / raised, end hook -/
+def post (n : Resolved) : List Ev :=
+  [Ev.call n.path, if n.o = .raises then Ev.raise n.path else Ev.ret n.path, Ev.hook (.field n.path false)]
+
+private theorem order_eq (cfg : Cfg) (n : Resolved) (h : n.o ≠ .argError) : order cfg n = pre cfg n ++ post n := by
+  simp [order, pre, post, h]
+
+/-- state of a field after a start phase: fully done in `evs`, or started in `evs` and
+    waiting as a task, or not started yet below a waiting task -/
+def Covered (cfg : Cfg) (evs : List Ev) (ts : List Task) (n : Resolved) : Prop :=
+  (order cfg n).Sublist evs
+  ∨ (∃ t ∈ ts, (taskNode t) = n ∧ n.o ≠ .argError ∧ (pre cfg n).Sublist evs)
+  ∨ (∃ t ∈ ts, n ∈ (taskDesc t))
+
+private theorem Covered.mono {cfg : Cfg} {evs evs' : List Ev} {ts ts' : List Task} {n : Resolved}
+    (h : Covered cfg evs ts n) (he : evs.Sublist evs') (ht : ∀ t ∈ ts, t ∈ ts') : Covered cfg evs' ts' n := by
+  rcases h with h | ⟨t, ht1, h1, h2, h3⟩ | ⟨t, ht1, h1⟩
+  · exact Or.inl (h.trans he)
+  · exact Or.inr (Or.inl ⟨t, ht t ht1, h1, h2, h3.trans he⟩)
+  · exact Or.inr (Or.inr ⟨t, ht t ht1, h1⟩)
+
+private theorem order_sub_sync (cfg : Cfg) (p : Path) (o : OutKind) (h : o ≠ .argError) (rest : List Ev) :
+    (order cfg ⟨p, o⟩).Sublist (fieldStart p ++ fieldResolver cfg false o p ++ fieldEnd p ++ rest) := by
+  simp only [order, h, if_false, fieldStart, fieldResolver, middleware_once_in_order, resolverBody, fieldEnd,
+    Bool.false_eq_true, List.append_assoc]
+  refine (List.Sublist.refl _).append ((List.Sublist.refl _).append ((List.Sublist.refl _).append ?_))
+  exact (List.sublist_append_left _ _).trans (List.sublist_append_right _ _)
+
+private theorem pre_sub_deferred (cfg : Cfg) (p : Path) (o : OutKind) :
+    (pre cfg ⟨p, o⟩).Sublist (fieldStart p ++ fieldResolver cfg true o p) := by
+  simp only [pre, fieldStart, fieldResolver, middleware_once_in_order, submitOnly, if_true, List.append_assoc]
+  exact (List.Sublist.refl _).append (List.sublist_append_left _ _)
+
+mutual
+private theorem cField (cfg : Cfg) : ∀ (path : Path) (nd : Node), ∀ n ∈ nodesOfNode path nd,
+    Covered cfg (startField cfg path nd).1 (startField cfg path nd).2 n
+  | path, .mk key d o c => by
+    intro n hn
+    cases o with
+    | argError =>
+      simp only [nodesOfNode, List.mem_cons, List.not_mem_nil, or_false] at hn
+      subst hn
+      exact Or.inl (by simp [order, startField, fieldStart, fieldEnd])
+    | raises =>
+      simp only [nodesOfNode, List.mem_cons, List.not_mem_nil, or_false] at hn
+      subst hn
+      cases d
+      · refine Or.inl ?_
+        have := order_sub_sync cfg (path ++ [.key key]) .raises (by simp) []
+        simpa [startField] using this
+      · refine Or.inr (Or.inl ⟨⟨path ++ [.key key], .raises, c⟩, by simp [startField], rfl, by simp, ?_⟩)
+        simpa [startField] using pre_sub_deferred cfg (path ++ [.key key]) .raises
+    | returns =>
+      simp only [nodesOfNode, List.mem_cons] at hn
+      cases d
+      · rcases hn with rfl | hn
+        · refine Or.inl ?_
+          simpa [startField] using order_sub_sync cfg (path ++ [.key key]) .returns (by simp) _
+        · have ih := cComp cfg (path ++ [.key key]) c n hn
+          refine ih.mono ?_ (fun t ht => by simpa [startField] using ht)
+          simp only [startField, Bool.false_eq_true, if_false]
+          exact List.sublist_append_right _ _
+      · rcases hn with rfl | hn
+        · refine Or.inr (Or.inl ⟨⟨path ++ [.key key], .returns, c⟩, by simp [startField], rfl, by simp, ?_⟩)
+          simpa [startField] using pre_sub_deferred cfg (path ++ [.key key]) .returns
+        · exact Or.inr (Or.inr ⟨⟨path ++ [.key key], .returns, c⟩, by simp [startField], by simpa [taskDesc] using hn⟩)
+private theorem cComp (cfg : Cfg) : ∀ (p : Path) (c : Comp), ∀ n ∈ nodesOfComp p c,
+    Covered cfg (startComplete cfg p c).1 (startComplete cfg p c).2 n
+  | p, .leaf => by intro n hn; simp [nodesOfComp] at hn
+  | p, .null => by intro n hn; simp [nodesOfComp] at hn
+  | p, .obj fs => by intro n hn; simpa [startComplete] using cFields cfg p fs n (by simpa [nodesOfComp] using hn)
+  | p, .list items => by intro n hn; simpa [startComplete] using cItems cfg p 0 items n (by simpa [nodesOfComp] using hn)
+private theorem cFields (cfg : Cfg) : ∀ (p : Path) (fs : List Node), ∀ n ∈ nodesOfFields p fs,
+    Covered cfg (startFields cfg p fs).1 (startFields cfg p fs).2 n
+  | p, [] => by intro n hn; simp [nodesOfFields] at hn
+  | p, nd :: nds => by
+    intro n hn
+    simp only [nodesOfFields, List.mem_append] at hn
+    simp only [startFields]
+    rcases hn with hn | hn
+    · exact (cField cfg p nd n hn).mono (List.sublist_append_left _ _) (fun t ht => List.mem_append_left _ ht)
+    · exact (cFields cfg p nds n hn).mono (List.sublist_append_right _ _) (fun t ht => List.mem_append_right _ ht)
+private theorem cItems (cfg : Cfg) : ∀ (p : Path) (i : Nat) (cs : List Comp), ∀ n ∈ nodesOfItems p i cs,
+    Covered cfg (startItems cfg p i cs).1 (startItems cfg p i cs).2 n
+  | p, i, [] => by intro n hn; simp [nodesOfItems] at hn
+  | p, i, c :: cs => by
+    intro n hn
+    simp only [nodesOfItems, List.mem_append] at hn
+    simp only [startItems]
+    rcases hn with hn | hn
+    · exact (cComp cfg (p ++ [.idx i]) c n hn).mono (List.sublist_append_left _ _) (fun t ht => List.mem_append_left _ ht)
+    · exact (cItems cfg p (i + 1) cs n hn).mono (List.sublist_append_right _ _) (fun t ht => List.mem_append_right _ ht)
+end
+
+/-- a covered field is in order once the outstanding tasks have been drained into `dtr` -/
+private theorem covered_done (cfg : Cfg) (evs dtr : List Ev) (ts : List Task) (n : Resolved)
+    (hc : Covered cfg evs ts n)
+    (h1 : ∀ t ∈ ts, (post (taskNode t)).Sublist dtr)
+    (h2 : ∀ t ∈ ts, ∀ m ∈ (taskDesc t), (order cfg m).Sublist dtr) :
+    (order cfg n).Sublist (evs ++ dtr) := by
+  rcases hc with h | ⟨t, ht, hn, ho, hp⟩ | ⟨t, ht, hn⟩
+  · exact h.trans (List.sublist_append_left _ _)
+  · rw [order_eq cfg n ho]
+    exact hp.append (hn ▸ h1 t ht)
+  · exact (h2 t ht n hn).trans (List.sublist_append_right _ _)
+
+private theorem mem_eraseIdx_or {α} : ∀ (l : List α) (i : Nat) (h : i < l.length) (x : α), x ∈ l →
+    x = l[i] ∨ x ∈ l.eraseIdx i
+  | a :: l, 0, _, x, hx => by simpa using hx
+  | a :: l, i + 1, h, x, hx => by
+    rcases List.mem_cons.1 hx with rfl | hx
+    · exact .inr (by simp [List.eraseIdx])
+    · rcases mem_eraseIdx_or l i (by simpa using h) x hx with h' | h'
+      · exact Or.inl (by simpa using h')
+      · exact .inr (by simp [List.eraseIdx, h'])
+
+private theorem drain_order (cfg : Cfg) : ∀ (fuel : Nat) (pool : List Task) (sched : List Nat),
+    poolSize pool ≤ fuel →
+    (∀ t ∈ pool, (post (taskNode t)).Sublist (drain cfg fuel pool sched).1)
+    ∧ (∀ t ∈ pool, ∀ m ∈ (taskDesc t), (order cfg m).Sublist (drain cfg fuel pool sched).1)
+  | 0, pool, sched, h => by
+    cases pool with
+    | nil => simp
+    | cons t ts => simp [poolSize, Task.size] at h
+  | fuel + 1, [], sched, _ => by simp
+  | fuel + 1, t0 :: rest, sched, h => by
+    have hi : sched.headD 0 % (t0 :: rest).length < (t0 :: rest).length := Nat.mod_lt _ (by simp)
+    simp only [drain]
+    generalize sched.headD 0 % (t0 :: rest).length = i at hi ⊢
+    have hget : (t0 :: rest).getD i t0 = (t0 :: rest)[i] := by
+      simp [List.getD, List.getElem?_eq_getElem hi]
+    rw [hget]
+    generalize hT : (t0 :: rest)[i] = T
+    have hsz := (runTask_count cfg (.call []) T).2
+    have hs := sum_eraseIdx Task.size (t0 :: rest) i hi
+    rw [hT] at hs
+    have ih := drain_order cfg fuel ((t0 :: rest).eraseIdx i ++ (runTask cfg T).2) sched.tail (by
+      simp only [poolSize, List.map_append, List.sum_append] at h hsz ⊢
+      omega)
+    generalize drain cfg fuel ((t0 :: rest).eraseIdx i ++ (runTask cfg T).2) sched.tail = D at ih ⊢
+    obtain ⟨ih1, ih2⟩ := ih
+    -- what the picked task itself emits
+    have hpost : (post (taskNode T)).Sublist (runTask cfg T).1 := by
+      obtain ⟨p, o, c⟩ := T
+      cases o <;> simp [runTask, post, taskNode, resolverBody, fieldEnd]
+    have hdesc : ∀ m ∈ (taskDesc T), (order cfg m).Sublist ((runTask cfg T).1 ++ D.1) := by
+      intro m hm
+      obtain ⟨p, o, c⟩ := T
+      cases o with
+      | returns =>
+        have hc := cComp cfg p c m (by simpa [taskDesc] using hm)
+        have := covered_done cfg _ D.1 _ m hc
+          (fun t ht => ih1 t (List.mem_append_right _ (by simpa [runTask] using ht)))
+          (fun t ht => ih2 t (List.mem_append_right _ (by simpa [runTask] using ht)))
+        simp only [runTask, List.append_assoc]
+        exact this.trans ((List.sublist_append_right _ _).trans (List.sublist_append_right _ _))
+      | _ => simp [taskDesc] at hm
+    refine ⟨fun t ht => ?_, fun t ht m hm => ?_⟩
+    · rcases mem_eraseIdx_or _ i hi t ht with h' | h'
+      · rw [h', hT]; exact hpost.trans (List.sublist_append_left _ _)
+      · exact (ih1 t (List.mem_append_left _ h')).trans (List.sublist_append_right _ _)
+    · rcases mem_eraseIdx_or _ i hi t ht with h' | h'
+      · rw [h', hT] at hm; exact hdesc m hm
+      · exact (ih2 t (List.mem_append_left _ h') m hm).trans (List.sublist_append_right _ _)
+
+private theorem execSerial_order (cfg : Cfg) : ∀ (fs : List Node) (sched : List Nat), ∀ n ∈ nodesOfFields [] fs,
+    (order cfg n).Sublist (execSerial cfg fs sched)
+  | [], sched => by intro n hn; simp [nodesOfFields] at hn
+  | nd :: nds, sched => by
+    intro n hn
+    simp only [nodesOfFields, List.mem_append] at hn
+    simp only [execSerial]
+    rcases hn with hn | hn
+    · have hsz := (aField cfg (.call []) [] nd).2
+      have hd := drain_order cfg (sizeNode nd) (startField cfg [] nd).2 sched hsz
+      exact (covered_done cfg _ _ _ n (cField cfg [] nd n hn) hd.1 hd.2).trans (List.sublist_append_left _ _)
+    · exact (execSerial_order cfg nds _ n hn).trans (List.sublist_append_right _ _)
+
+/-- **field order, every executor, every runtime, EVERY completion order**: for every resolved
+    field the events `start hook, middlewares entered (last one first), resolver invoked,
+    returned / raised, end hook` (all with its path) occur in this order in the trace. Together
+    with `field_hooks_once` (each of them occurs exactly once): the start hook fires before the
+    resolver is invoked and the end hook after it returned or raised, whatever the schedule. -/
+theorem field_hooks_ordered : FieldOrderAllSchedules := by
+  intro cfg r n hn
+  unfold execBody
+  split
+  · rw [field_hooks_once_blocking, List.flatMap_def]
+    have hc : (order cfg n).Sublist (chunk cfg n) := by
+      simp only [order, chunk, List.append_assoc]
+      refine (List.Sublist.refl _).append ?_
+      split
+      · exact List.Sublist.refl _
+      · simp only [List.append_assoc]
+        refine (List.Sublist.refl _).append ((List.Sublist.refl _).append ?_)
+        exact List.sublist_append_right _ _
+    exact hc.trans (List.infix_of_mem_flatten (List.mem_map_of_mem hn)).sublist
+  · split
+    · exact execSerial_order cfg _ _ n hn
+    · have hsz := (aFields cfg (.call []) [] r.fields).2
+      have hd := drain_order cfg (sizeNodes r.fields) (startFields cfg [] r.fields).2 r.sched hsz
+      exact covered_done cfg _ _ _ n (cFields cfg [] r.fields n hn) hd.1 hd.2
+
+
+/-! ## a path identifies a field -/
+
+def Node.key : Node → String
+  | .mk k _ _ _ => k
+
+mutual
+/-- sibling response keys are distinct in every selection set of the tree (what
+    `collect_fields`, which groups by response key, guarantees) -/
+def wfNode : Node → Bool
+  | .mk _ _ _ c => wfComp c
+def wfComp : Comp → Bool
+  | .leaf => true
+  | .null => true
+  | .obj fs => decide ((keysOf fs).Nodup) && wfNodes fs
+  | .list items => wfItems items
+def wfNodes : List Node → Bool
+  | [] => true
+  | n :: ns => wfNode n && wfNodes ns
+def wfItems : List Comp → Bool
+  | [] => true
+  | c :: cs => wfComp c && wfItems cs
+def keysOf : List Node → List String
+  | [] => []
+  | n :: ns => Node.key n :: keysOf ns
+end
+
+private theorem prefix_same_len {q a b : Path} (ha : a <+: q) (hb : b <+: q) (hl : a.length = b.length) : a = b := by
+  obtain ⟨x, rfl⟩ := ha
+  obtain ⟨y, hy⟩ := hb
+  exact ((List.append_inj hy.symm hl)).1
+
+private theorem ext_ne {p q : Path} {s : Seg} (h : p ++ [s] <+: q) : q ≠ p := by
+  intro e
+  have := h.length_le
+  simp [e] at this
+  omega
+
+private def pathsOf (l : List Resolved) : List Path := l.map (·.path)
+
+mutual
+private theorem uNode : ∀ (path : Path) (n : Node), wfNode n = true →
+    (pathsOf (nodesOfNode path n)).Nodup ∧ ∀ q ∈ pathsOf (nodesOfNode path n), path ++ [.key (Node.key n)] <+: q
+  | path, .mk key d o c, h => by
+    have hc := uComp (path ++ [.key key]) c (by simpa [wfNode] using h)
+    cases o with
+    | returns =>
+      simp only [nodesOfNode, pathsOf, List.map_cons, List.nodup_cons, List.mem_cons, Node.key]
+      refine ⟨⟨fun hm => ?_, hc.1⟩, fun q hq => ?_⟩
+      · obtain ⟨s, hs⟩ := hc.2 _ hm
+        exact ext_ne hs rfl
+      · rcases hq with rfl | hq
+        · exact List.prefix_refl _
+        · obtain ⟨s, hs⟩ := hc.2 q hq
+          exact (List.prefix_append _ _).trans hs
+    | _ => simp [nodesOfNode, pathsOf, Node.key]
+private theorem uComp : ∀ (p : Path) (c : Comp), wfComp c = true →
+    (pathsOf (nodesOfComp p c)).Nodup ∧ ∀ q ∈ pathsOf (nodesOfComp p c), ∃ s, p ++ [s] <+: q
+  | p, .leaf, _ => by simp [nodesOfComp, pathsOf]
+  | p, .null, _ => by simp [nodesOfComp, pathsOf]
+  | p, .obj fs, h => by
+    simp only [wfComp, Bool.and_eq_true, decide_eq_true_eq] at h
+    have := uFields p fs h.2 h.1
+    exact ⟨by simpa [nodesOfComp] using this.1, fun q hq => by
+      obtain ⟨k, _, hk⟩ := this.2 q (by simpa [nodesOfComp] using hq); exact ⟨_, hk⟩⟩
+  | p, .list items, h => by
+    have := uItems p 0 items (by simpa [wfComp] using h)
+    exact ⟨by simpa [nodesOfComp] using this.1, fun q hq => by
+      obtain ⟨j, _, hj⟩ := this.2 q (by simpa [nodesOfComp] using hq); exact ⟨_, hj⟩⟩
+private theorem uFields : ∀ (p : Path) (fs : List Node), wfNodes fs = true → (keysOf fs).Nodup →
+    (pathsOf (nodesOfFields p fs)).Nodup ∧ ∀ q ∈ pathsOf (nodesOfFields p fs), ∃ k ∈ keysOf fs, p ++ [.key k] <+: q
+  | p, [], _, _ => by simp [nodesOfFields, pathsOf]
+  | p, n :: ns, h, hk => by
+    simp only [wfNodes, Bool.and_eq_true] at h
+    simp only [keysOf, List.nodup_cons] at hk
+    have h1 := uNode p n h.1
+    have h2 := uFields p ns h.2 hk.2
+    simp only [nodesOfFields, pathsOf, List.map_append] at h1 h2 ⊢
+    refine ⟨List.nodup_append.2 ⟨h1.1, h2.1, fun a ha b hb e => ?_⟩, fun q hq => ?_⟩
+    · subst e
+      obtain ⟨k, hk', hkp⟩ := h2.2 a hb
+      have := prefix_same_len (h1.2 a ha) hkp (by simp)
+      simp at this
+      exact hk.1 (this ▸ hk')
+    · rcases List.mem_append.1 hq with hq | hq
+      · exact ⟨_, by simp [keysOf], h1.2 q hq⟩
+      · obtain ⟨k, hk', hkp⟩ := h2.2 q hq
+        exact ⟨k, by simp [keysOf, hk'], hkp⟩
+private theorem uItems : ∀ (p : Path) (i : Nat) (cs : List Comp), wfItems cs = true →
+    (pathsOf (nodesOfItems p i cs)).Nodup ∧ ∀ q ∈ pathsOf (nodesOfItems p i cs), ∃ j, i ≤ j ∧ p ++ [.idx j] <+: q
+  | p, i, [], _ => by simp [nodesOfItems, pathsOf]
+  | p, i, c :: cs, h => by
+    simp only [wfItems, Bool.and_eq_true] at h
+    have h1 := uComp (p ++ [.idx i]) c h.1
+    have h2 := uItems p (i + 1) cs h.2
+    simp only [nodesOfItems, pathsOf, List.map_append] at h1 h2 ⊢
+    have hpre : ∀ q ∈ List.map (fun x => x.path) (nodesOfComp (p ++ [.idx i]) c), p ++ [.idx i] <+: q := by
+      intro q hq
+      obtain ⟨s, hs⟩ := h1.2 q hq
+      exact (List.prefix_append _ _).trans hs
+    refine ⟨List.nodup_append.2 ⟨h1.1, h2.1, fun a ha b hb e => ?_⟩, fun q hq => ?_⟩
+    · subst e
+      obtain ⟨j, hj, hjp⟩ := h2.2 a hb
+      have := prefix_same_len (hpre a ha) hjp (by simp)
+      simp at this
+      omega
+    · rcases List.mem_append.1 hq with hq | hq
+      · exact ⟨i, Nat.le_refl _, hpre q hq⟩
+      · obtain ⟨j, hj, hjp⟩ := h2.2 q hq
+        exact ⟨j, by omega, hjp⟩
+end
+
+/-- **a response path identifies a resolved field**: when sibling response keys are distinct
+    (everywhere in the tree), no two resolved fields share a path — so "exactly once per field"
+    in `field_hooks_once` is "exactly once per path". -/
+theorem field_paths_unique (fs : List Node) (hk : (keysOf fs).Nodup) (hw : wfNodes fs = true) :
+    ((nodesOfFields [] fs).map (·.path)).Nodup :=
+  (uFields [] fs hw hk).1
+
+example : (keysOf demoFields).Nodup ∧ wfNodes demoFields = true := by decide
+
+
+private theorem count_of_nodup {α} [BEq α] [LawfulBEq α] : ∀ (l : List α) (a : α), l.Nodup → a ∈ l → l.count a = 1
+  | [], a, _, ha => by simp at ha
+  | x :: l, a, h, ha => by
+    rw [List.nodup_cons] at h
+    by_cases e : x = a
+    · subst e; simp [List.count_cons, List.count_eq_zero.2 h.1]
+    · have hm : a ∈ l := by
+        rcases List.mem_cons.1 ha with h' | h'
+        · exact absurd h'.symm e
+        · exact h'
+      simp [List.count_cons, e, count_of_nodup l a h.2 hm]
+
+private theorem sum_indicator (p : Path) : ∀ (l : List Resolved),
+    (l.map (fun m => if m.path = p then 1 else 0)).sum = List.count p (l.map (·.path))
+  | [] => rfl
+  | m :: l => by
+    by_cases h : m.path = p <;> simp [h, sum_indicator p l, List.count_cons] <;> omega
+
+private theorem count_hook_chunk (cfg : Cfg) (p : Path) (b : Bool) (m : Resolved) :
+    List.count (Ev.hook (.field p b)) (chunk cfg m) = if m.path = p then 1 else 0 := by
+  have hmid : ∀ (mid : List Ev), (∀ e ∈ mid, ∀ h, e ≠ Ev.hook h) →
+      List.count (Ev.hook (.field p b)) ([Ev.hook (.field m.path true)] ++ mid ++ [Ev.hook (.field m.path false)])
+        = if m.path = p then 1 else 0 := by
+    intro mid hm
+    have h0 : List.count (Ev.hook (.field p b)) mid = 0 := List.count_eq_zero.2 (fun hin => hm _ hin _ rfl)
+    by_cases hp : m.path = p <;> cases b <;> simp [List.count_append, List.count_cons, h0, hp]
+  unfold chunk
+  apply hmid
+  intro e he h
+  split at he
+  · simp at he
+  · simp only [List.mem_append, List.mem_map, List.mem_cons, List.not_mem_nil, or_false] at he
+    rcases he with (⟨i, _, rfl⟩ | rfl | rfl) | ⟨i, _, rfl⟩ <;> first | (intro e; cases e) | (split <;> intro e <;> cases e)
+
+/-- **exactly once per path** — when sibling keys are distinct, for every resolved field and
+    whatever the executor, runtime and completion order: the start hook with its path fires
+    exactly once in the whole execution, and so does the end hook with its path. -/
+theorem field_hooks_exactly_once_per_path (cfg : Cfg) (r : Request)
+    (hk : (keysOf r.fields).Nodup) (hw : wfNodes r.fields = true)
+    (n : Resolved) (hn : n ∈ nodesOfFields [] r.fields) (b : Bool) :
+    List.count (Ev.hook (.field n.path b)) (execBody cfg r) = 1 := by
+  rw [(field_hooks_once cfg r).count_eq, List.count_flatMap]
+  have : (List.count (Ev.hook (.field n.path b)) ∘ chunk cfg) = fun m => if m.path = n.path then 1 else 0 := by
+    funext m; exact count_hook_chunk cfg n.path b m
+  rw [this, sum_indicator]
+  exact count_of_nodup _ _ (field_paths_unique r.fields hk hw) (List.mem_map_of_mem hn)
 
 end PyGql.Props.C16
